@@ -3,6 +3,7 @@ package harness
 import (
 	"encoding/json"
 	"fmt"
+	storagev1 "k8s.io/api/storage/v1"
 	"sort"
 	"strings"
 	"testing"
@@ -57,12 +58,12 @@ func drawC11(t *rapid.T) *c11Scenario {
 type c11Key struct{ kind, ns, name string }
 
 type c11World struct {
-	w       *sim.World
-	pending map[c11Key]bool
-	order   []c11Key
-	marks   map[string]bool // explicit MarkForDeletion by provider id
+	w         *sim.World
+	pending   map[c11Key]bool
+	order     []c11Key
+	marks     map[string]bool // explicit MarkForDeletion by provider id
 	claimUsed map[int]bool
-	c       *ev.Ctx
+	c         *ev.Ctx
 }
 
 func (x *c11World) touch(kind, ns, name string) {
@@ -112,6 +113,17 @@ func c11Pod(i int, op c11Op) *corev1.Pod {
 	}
 	if op.C == 2 {
 		p.Annotations = map[string]string{"controller.kubernetes.io/pod-deletion-cost": fmt.Sprint(100 * (op.B + 1))}
+	}
+	// a PVC-backed volume, shared between pods (B odd) - the node's volume usage is an aggregate over its pods
+	if op.B%2 == 1 {
+		claim := "pvc-0" // most volume-carrying pods share one claim
+		if op.B%4 == 3 {
+			claim = fmt.Sprintf("pvc-%d", op.A%2)
+		}
+		p.Spec.Volumes = []corev1.Volume{{Name: "data", VolumeSource: corev1.VolumeSource{PersistentVolumeClaim: &corev1.PersistentVolumeClaimVolumeSource{ClaimName: claim}}}}
+		if op.B == 7 {
+			p.Spec.Volumes = append(p.Spec.Volumes, corev1.Volume{Name: "extra", VolumeSource: corev1.VolumeSource{PersistentVolumeClaim: &corev1.PersistentVolumeClaimVolumeSource{ClaimName: "pvc-2"}}})
+		}
 	}
 	if op.C == 3 {
 		p.Spec.Affinity = &corev1.Affinity{PodAntiAffinity: &corev1.PodAntiAffinity{RequiredDuringSchedulingIgnoredDuringExecution: []corev1.PodAffinityTerm{{TopologyKey: corev1.LabelHostname, LabelSelector: &metav1.LabelSelector{MatchLabels: map[string]string{"app": "a"}}}}}}
@@ -483,6 +495,11 @@ func execC11(s *c11Scenario, c *ev.Ctx) {
 	w := sim.New(sim.Options{})
 	w.ApplyNodeClass()
 	w.Provider.Default = c14Catalog
+	// storage: one CSI storage class and three claims the pods share
+	w.Apply(&storagev1.StorageClass{ObjectMeta: metav1.ObjectMeta{Name: "sc"}, Provisioner: "csi.ex.io"})
+	for i := 0; i < 3; i++ {
+		w.Apply(&corev1.PersistentVolumeClaim{ObjectMeta: metav1.ObjectMeta{Name: fmt.Sprintf("pvc-%d", i), Namespace: "default"}, Spec: corev1.PersistentVolumeClaimSpec{StorageClassName: ptrTo("sc")}})
+	}
 	for i := 0; i < 2; i++ {
 		np := &v1.NodePool{ObjectMeta: metav1.ObjectMeta{Name: fmt.Sprintf("p%d", i), UID: types.UID(fmt.Sprintf("pool-uid-%d", i))}}
 		np.Spec.Template.Spec.ExpireAfter = v1.MustParseNillableDuration("Never")
